@@ -149,10 +149,23 @@ func runC09(c *Ctx, idx int64) {
 		s.ChangeFull(u, w.Texts[unsaved])
 		s.WaitPub(u, have)
 	}
+	// with an include added by an edit the other files stay on disk in half of the cases: opening
+	// them would bring them into the workspace by another road
+	isOpen := make([]bool, len(w.Names))
+	leaveClosed := dynamic && r.Bool()
 	for f := range w.Names {
-		if f != unsaved && !(dynamic && f == 0) {
-			s.OpenWait(w.URI(s, f), w.Texts[f])
+		if f == unsaved || (dynamic && f == 0) {
+			isOpen[f] = true
+			continue
 		}
+		if leaveClosed {
+			continue
+		}
+		s.OpenWait(w.URI(s, f), w.Texts[f])
+		isOpen[f] = true
+	}
+	if leaveClosed {
+		c.Count("workspaces_with_files_left_on_disk", 1)
 	}
 	s.Drain()
 	ctx := context.Background()
@@ -197,6 +210,9 @@ func runC09(c *Ctx, idx int64) {
 	sort.Slice(syms, func(i, j int) bool { return syms[i].kind+syms[i].name < syms[j].kind+syms[j].name })
 	for _, sy := range syms {
 		for from := range w.Names {
+			if !isOpen[from] {
+				continue
+			}
 			scope := w.Scope(from)
 			occs := w.occurrences(sy.kind, sy.name, scope)
 			files := map[int]bool{}
